@@ -18,12 +18,21 @@
 //!     process-unmapped-keys): a key mapped to `use-defsrc` directly, by deflayermap input or by a
 //!     deflayermap wildcard (_ __ ___), or transparent above an identity, on a held / switched /
 //!     held-over-switched layer or on the first layer itself comes out as itself whatever the first
-//!     layer maps it to; the `src_keys` row handed to the layout is the identity.
+//!     layer maps it to; the `src_keys` row handed to the layout is the identity;
+//! (7) coordinate (0,0) (code 0, "index 0 of every layer") is a no-op on every layer whatever the
+//!     layer's fill rules are (c11_cell0.rs): an action written through a deflayermap any-key entry
+//!     (_ __ ___) or through an explicit entry for a local key bound to number 0 never ends up in
+//!     cell 0, and the features that inject events at (0,0) - defchordsv2 activation / release, the
+//!     fake presses of macros / sequences / one-shot, a device that really emits code 0 - never
+//!     perform it: no extra output, no layer change. Cell 0 of every layer is also inspected in
+//!     the configurations of parts (4) and (6).
 
 #[path = "c11_ref.rs"]
 mod refs;
 #[path = "c11_paths.rs"]
 mod paths;
+#[path = "c11_cell0.rs"]
+mod cell0;
 
 use crate::core::rng::Rng;
 use crate::core::sim::{render_hist, Ev, OutKind, Sim};
@@ -799,6 +808,18 @@ fn run_mapped(out: &mut CaseOut, ctx: &Ctx, r: u64) {
     };
     out.inc("mapped_configs");
     out.tag(mc.class.clone());
+    // index 0 of every layer is a no-op whatever the layer's entries and any-key entries are
+    for (li, layer) in cfg.layout.b().layers.iter().enumerate() {
+        out.inc("mapped_layer_cells0_inspected");
+        if layer[0][0] != Action::NoOp {
+            out.violate(
+                "C11:mapped:cell0-not-noop",
+                format!("cell (0,0) of layer #{li} is {:?}, expected NoOp", layer[0][0]),
+                json!({"config": mc.cfg, "history": "(parse only)", "observed": format!("{:?}", layer[0][0]), "expected": "NoOp", "layer_index": li}),
+            );
+            break;
+        }
+    }
     let mut got: BTreeSet<u16> = cfg.mapped_keys.iter().map(|o| o.as_u16()).collect();
     let mut exp = mc.expected.clone();
     for u in UNDECIDED {
@@ -846,7 +867,7 @@ impl Check for C11Check {
         "C11"
     }
     fn n_cases(&self, ctx: &Ctx) -> u64 {
-        n_stepper() + n_names() + 1 + n_mapped(ctx) + paths::n_nop_cases() + paths::n_ident_cases(ctx)
+        n_stepper() + n_names() + 1 + n_mapped(ctx) + paths::n_nop_cases() + paths::n_ident_cases(ctx) + cell0::n_cases()
     }
     fn describe(&self, ctx: &Ctx, idx: u64) -> Value {
         let (a, b) = (n_stepper(), n_names());
@@ -860,8 +881,10 @@ impl Check for C11Check {
             json!({"part": "mapped", "config": make_mapped(ctx, idx - a - b - 1).cfg})
         } else if idx < a + b + 1 + n_mapped(ctx) + paths::n_nop_cases() {
             paths::describe_nop(idx - a - b - 1 - n_mapped(ctx))
-        } else {
+        } else if idx < a + b + 1 + n_mapped(ctx) + paths::n_nop_cases() + paths::n_ident_cases(ctx) {
             paths::describe_ident(ctx, idx - a - b - 1 - n_mapped(ctx) - paths::n_nop_cases())
+        } else {
+            cell0::describe(idx - a - b - 1 - n_mapped(ctx) - paths::n_nop_cases() - paths::n_ident_cases(ctx))
         }
     }
     fn run_case(&self, ctx: &Ctx, idx: u64) -> CaseOut {
@@ -883,13 +906,15 @@ impl Check for C11Check {
             run_mapped(&mut out, ctx, idx - a - b - 1);
         } else if idx < a + b + 1 + n_mapped(ctx) + paths::n_nop_cases() {
             paths::run_nop(&mut out, ctx, idx - a - b - 1 - n_mapped(ctx));
-        } else {
+        } else if idx < a + b + 1 + n_mapped(ctx) + paths::n_nop_cases() + paths::n_ident_cases(ctx) {
             paths::run_ident(&mut out, ctx, idx - a - b - 1 - n_mapped(ctx) - paths::n_nop_cases());
+        } else {
+            cell0::run_case(&mut out, ctx, idx - a - b - 1 - n_mapped(ctx) - paths::n_nop_cases() - paths::n_ident_cases(ctx));
         }
         out
     }
     fn rule(&self) -> String {
-        "Exhaustive and seed-independent: (1) every code 0..=766 that OsCode::from_u16 knows is pressed, auto-repeated twice by the OS while held (KeyValue::Repeat), and released in a real Kanata in six configurations (named via deflocalkeys-linux and mapped to itself in defsrc/deflayer; `_`; `use-defsrc`; not in defsrc with process-unmapped-keys yes; the transparent and the unmapped variant again with a layer-while-held active whose layer is transparent) and the OS stream must be press c / repeat c / repeat c / release c with the pinned KeyCode name of value c (nothing at all, also no repeat, for 0 and 0x2a4..=0x2ad; mouse-button events for 272..=276 and one scroll event for 745..=748, where repeat outputs are counted but not judged); (2) every string literal of str_to_oscode and of its default-mapping table, extracted at run time from the current parser/src/keys/mod.rs, must denote its pinned code through str_to_oscode, in defsrc, as a layer action, as a deflayermap input, as fork trigger, as switch key / key-history / input item (each one-case switch evaluated for all 749 codes), in unmod, and on both sides of defoverrides; (3) for every code: from_u16/as_u16 round trip, u16::from(osc) == KeyCode::from(osc) as u16, reverse conversion, Debug names of both sides equal to pinned tables (OsCode names cross-checked with the kernel's input-event-codes.h), plus the enum declarations parsed from the current sources: same discriminant sets, no duplicate, every (variant, value) as pinned. Random: (4) configurations with random defsrc subsets, deflayermap inputs (also overlapping defsrc / excepted keys, with _ / __ / ___), process-unmapped-keys no | yes | (all-except ...), optional deflocalkeys; Cfg.mapped_keys must equal the set computed from that description. (5) Systematic, seed-independent scenarios plus seeded random histories: 134 small configurations in 41 families type a key K on every path that writes keys to the OS - sequences in the three input modes (mode from defcfg and from the (sequence t mode) leader; K first / second / third in the sequence; completed, cancelled by a foreign key, cancelled by the timeout, cancelled by K itself, K held and auto-repeated over the cancel, S-K, leader and K typed by one macro, virtual key whose macro types K), macro / macro-release-cancel / macro-cancel-on-press / macro-repeat, dynamic macro record + replay, zippychord with K pressed among the chord keys and with K as output-character-mapping (plain, S-, no-erase, single-output), unmod / unshift, defoverrides outputs (also with a modifier), one-shot / one-shot-release, defchords and defchordsv2, four tap-hold kinds, tap-dance / tap-dance-eager, fork / switch / multi, S- C-A- RA- prefixes, rpt / rpt-any, virtual keys through on-press / on-release / hold-for-duration and the direct fake-key operations, caps-word / caps-word-custom, held and switched layers; OS auto-repeats are part of the histories. Every scenario runs with K = nop0..nop9 (designed history + 6 / 200 random histories per key) and once with K = f24 (control). Judged: the raw OS stream (also redundant releases) of a nop run contains no press, repeat, release or raw-code event of 0x2a4..=0x2ad. The control run is only counted (did f24 reach the OS through this family?). (6) Exhaustive over the enumerated space: for 4 (quick) / 12 (thorough) codes x delegate-to-first-layer {no,yes} x transparent-key-resolution {absent,to-base-layer,layer-stack} x block-unmapped-keys {no,yes} x process-unmapped-keys {no,yes,(all-except f24)} x key in defsrc or not x first layer {deflayer: x, XX, _, the key, use-defsrc, (multi lctl x), (tap-hold ..); deflayermap: x, use-defsrc, key absent} x upper layer maps the key by {deflayer use-defsrc, deflayermap explicit use-defsrc, `_`, `__`, `___` wildcard use-defsrc, explicit transparent in deflayer / deflayermap above an identity} x activation {layer-while-held, layer-switch, transparent held layer over the switched layer, the first layer itself} (combinations the language rejects or in which the key is not intercepted are skipped; ~20 800 configurations in quick; two cases per (code, option combination) so that first layers that use use-defsrc themselves - which recurse without bound if the defsrc row is not the identity - cannot hide the others): press, two OS repeats, release must come out as press c / repeat c / repeat c / release c, nothing may stay held, and Layout.src_keys must be KeyCode(c) in column c (no-op in column 0 and for codes unknown to the OS layer). Non-trivial = accepted configuration / code / name / scenario; distinct = code, name, mapped-set class, scenario family + variant, (code, option combination).".into()
+        "Exhaustive and seed-independent: (1) every code 0..=766 that OsCode::from_u16 knows is pressed, auto-repeated twice by the OS while held (KeyValue::Repeat), and released in a real Kanata in six configurations (named via deflocalkeys-linux and mapped to itself in defsrc/deflayer; `_`; `use-defsrc`; not in defsrc with process-unmapped-keys yes; the transparent and the unmapped variant again with a layer-while-held active whose layer is transparent) and the OS stream must be press c / repeat c / repeat c / release c with the pinned KeyCode name of value c (nothing at all, also no repeat, for 0 and 0x2a4..=0x2ad; mouse-button events for 272..=276 and one scroll event for 745..=748, where repeat outputs are counted but not judged); (2) every string literal of str_to_oscode and of its default-mapping table, extracted at run time from the current parser/src/keys/mod.rs, must denote its pinned code through str_to_oscode, in defsrc, as a layer action, as a deflayermap input, as fork trigger, as switch key / key-history / input item (each one-case switch evaluated for all 749 codes), in unmod, and on both sides of defoverrides; (3) for every code: from_u16/as_u16 round trip, u16::from(osc) == KeyCode::from(osc) as u16, reverse conversion, Debug names of both sides equal to pinned tables (OsCode names cross-checked with the kernel's input-event-codes.h), plus the enum declarations parsed from the current sources: same discriminant sets, no duplicate, every (variant, value) as pinned. Random: (4) configurations with random defsrc subsets, deflayermap inputs (also overlapping defsrc / excepted keys, with _ / __ / ___), process-unmapped-keys no | yes | (all-except ...), optional deflocalkeys; Cfg.mapped_keys must equal the set computed from that description. (5) Systematic, seed-independent scenarios plus seeded random histories: 134 small configurations in 41 families type a key K on every path that writes keys to the OS - sequences in the three input modes (mode from defcfg and from the (sequence t mode) leader; K first / second / third in the sequence; completed, cancelled by a foreign key, cancelled by the timeout, cancelled by K itself, K held and auto-repeated over the cancel, S-K, leader and K typed by one macro, virtual key whose macro types K), macro / macro-release-cancel / macro-cancel-on-press / macro-repeat, dynamic macro record + replay, zippychord with K pressed among the chord keys and with K as output-character-mapping (plain, S-, no-erase, single-output), unmod / unshift, defoverrides outputs (also with a modifier), one-shot / one-shot-release, defchords and defchordsv2, four tap-hold kinds, tap-dance / tap-dance-eager, fork / switch / multi, S- C-A- RA- prefixes, rpt / rpt-any, virtual keys through on-press / on-release / hold-for-duration and the direct fake-key operations, caps-word / caps-word-custom, held and switched layers; OS auto-repeats are part of the histories. Every scenario runs with K = nop0..nop9 (designed history + 6 / 200 random histories per key) and once with K = f24 (control). Judged: the raw OS stream (also redundant releases) of a nop run contains no press, repeat, release or raw-code event of 0x2a4..=0x2ad. The control run is only counted (did f24 reach the OS through this family?). (6) Exhaustive over the enumerated space: for 4 (quick) / 12 (thorough) codes x delegate-to-first-layer {no,yes} x transparent-key-resolution {absent,to-base-layer,layer-stack} x block-unmapped-keys {no,yes} x process-unmapped-keys {no,yes,(all-except f24)} x key in defsrc or not x first layer {deflayer: x, XX, _, the key, use-defsrc, (multi lctl x), (tap-hold ..); deflayermap: x, use-defsrc, key absent} x upper layer maps the key by {deflayer use-defsrc, deflayermap explicit use-defsrc, `_`, `__`, `___` wildcard use-defsrc, explicit transparent in deflayer / deflayermap above an identity} x activation {layer-while-held, layer-switch, transparent held layer over the switched layer, the first layer itself} (combinations the language rejects or in which the key is not intercepted are skipped; ~20 800 configurations in quick; two cases per (code, option combination) so that first layers that use use-defsrc themselves - which recurse without bound if the defsrc row is not the identity - cannot hide the others): press, two OS repeats, release must come out as press c / repeat c / repeat c / release c, nothing may stay held, and Layout.src_keys must be KeyCode(c) in column c (no-op in column 0 and for codes unknown to the OS layer). (7) Exhaustive over the enumerated space, plus seeded random histories: route by which cell (0,0) of a layer could be written {deflayermap `__ ACT`; `___ ACT`; `___ ACT` with a deflocalkeys-linux name bound to number 0 in defsrc; `_ ACT` with that name in defsrc; explicit deflayermap input `zz0 ACT` (name in defsrc or not); deflayer entry at the defsrc position of zz0} x ACT {f24, S-f24, (layer-switch mk), (layer-while-held mk), macro, (multi lalt f24), tap-hold, one-shot, alias, on-press tap-vkey, mlft, arbitrary-code, unicode: everything ACT can produce is a marker nothing else in the configuration produces} x the layer carrying the entry {first layer, held layer, switched-to layer, first and held layer} x process-unmapped-keys {no, yes, (all-except f22)} x block-unmapped-keys x delegate-to-first-layer x transparent-key-resolution {absent, to-base-layer, layer-stack} (combinations the language rejects skipped; 11 232 configurations). Every configuration has two defchordsv2 chords (all-released, first-release with a macro), a tap-hold-press, a one-shot, a macro and a sldr/defseq sequence on keys a..g that have entries of their own on every layer. Judged (a) on the parsed Cfg: cell [layer][0][0] of every layer and column 0 of the defsrc row are exactly NoOp (also in every accepted configuration of parts 4 and 6); (b) on a real Kanata, for 4 designed histories (chord activation with a key tapped while the chord is held and released; chord activation under a pending tap-hold, after a one-shot, first-release chord; macro + one-shot + sequence without any chord; press / OS repeat / release of code 0 itself where Cfg.mapped_keys contains it) and 2 (quick) / 30 (thorough) seeded random histories over the same keys (chord pairs, code 0, repeats), each wrapped in the activation of the layer and ending with a probe tap that shows the layer: no marker (F23/F24/LAlt key event, mouse button, raw code, unicode, scroll) reaches the OS, the OS stream including its timing equals that of the same configuration without the entry, the current and default layer at the end are the same, nothing stays held. Non-trivial = accepted configuration / code / name / scenario; distinct = code, name, mapped-set class, scenario family + variant, (code, option combination), (route, placement, option combination).".into()
     }
     fn assumptions(&self) -> Vec<String> {
         vec![
@@ -900,6 +925,7 @@ impl Check for C11Check {
             "the Miri lane for the transmute is a separate crate (/verif/harness-miri) and not part of this in-process check".into(),
             "part 5 judges only the absence of OS events for the reserved codes; what else a scenario types (backspaces, the other keys) belongs to the properties of the respective feature. `(arbitrary-code n)` writes the number the user asked for and is not part of the scenarios; cmd-output-keys (feature `cmd`) and live reload are not reachable in this build / stepper. The control key (f24) is only counted: in the hidden-suppressed cancellation families and in one-shot it legitimately never reaches the OS".into(),
             "part 5: a zippychord output character mapped to a nop key (output-character-mappings) may be refused by the parser (it was typed with the unfiltered writer before the repair recorded in known_findings.json); the f24 control of that family must be accepted and reach the OS".into(),
+            "part 7: the expected OS stream is the one the same tree produces for the same configuration without the entry (a relation, not a model): the histories press only keys that have entries of their own on every layer (and code 0), so the any-key entry stands for no key that was pressed and removing it must not change anything; what those keys, chords, macros, sequences themselves emit is the subject of the properties of those features. The absolute clause (no marker output, no change of layer) does not depend on that reference. 'No-op' in the inspection means the cell is exactly Action::NoOp (a transparent or use-defsrc cell would be resolved through other layers). Events of code 0 itself are only sent where Cfg.mapped_keys contains code 0 (counted: cell0_code0_not_intercepted_history_skipped otherwise). The fake (0,0) presses that macros / sequences report to the one-shot tracker do not go through the layers in the current implementation; the scenarios are run and judged all the same".into(),
             "part 6: with transparent-key-resolution to-base-layer AND delegate-to-first-layer yes the guide does not decide whether a transparent key of a held layer resolves to the switched layer below it or to the first layer, so the held-transparent-over-switched activation is skipped for that option pair; a transparent upper key is judged only above a first layer that is itself the identity at that position (what lies below a transparent key otherwise is C04's subject); key codes: letters, a modifier, a function key and codes that have no name (via deflocalkeys-linux), not the mouse pseudo keys or nop keys (their identity is part 1)".into(),
         ]
     }
@@ -928,6 +954,7 @@ impl Check for C11Check {
             ("mapped_configs", 5_000),
             ("mapped_small_sets", 300),
             ("mapped_process_unmapped_sets", 500),
+            ("mapped_layer_cells0_inspected", 5_000),
         ];
         let q = _ctx.tier == crate::core::Tier::Quick;
         v.extend([
@@ -941,6 +968,7 @@ impl Check for C11Check {
             ("ident_runs", if q { 20_000 } else { 60_000 }),
             ("ident_key_came_out_as_itself", if q { 20_000 } else { 60_000 }),
             ("ident_defsrc_columns_inspected", 15_000_000),
+            ("ident_layer_cells0_inspected", if q { 40_000 } else { 120_000 }),
             ("ident_delegate_to_first_layer_yes", 9_000),
             ("ident_delegate_to_first_layer_no", 9_000),
             ("ident_trans_resolution_default", 6_000),
@@ -965,6 +993,7 @@ impl Check for C11Check {
             ("ident_activation_first-layer-itself", 700),
         ]);
         v.extend(paths::nop_family_floors());
+        v.extend(cell0::floors(_ctx));
         v
     }
     fn exhaustive(&self, _ctx: &Ctx) -> bool {
